@@ -7,6 +7,10 @@ import (
 	"fmt"
 	"go/token"
 	"go/types"
+	"os"
+	"os/exec"
+	"path/filepath"
+	"sort"
 	"strings"
 
 	"golang.org/x/tools/go/ssa"
@@ -152,6 +156,10 @@ type reviewedBound struct {
 func dischargeBounds(r *Run, fn *ssa.Function, rule string, reviewed []reviewedBound) int {
 	fa := r.P.FA(fn)
 	obs := fa.boundObligations()
+	r.BoundsFns[fn] = true
+	for _, ob := range obs {
+		r.BoundsPos[r.P.Pos(ob.In.Pos())] = true
+	}
 	for _, ob := range obs {
 		if ob.Kind == "typeassert" {
 			done := false
@@ -310,4 +318,107 @@ func (fa *FA) entailsPhiSplit(at ssa.Instruction, facts []Fact, a, b *Lin, depth
 		}
 	}
 	return false
+}
+
+// bceCrossCheck (thorough tier): the Go compiler's own list of bounds checks it could not
+// prove away (-d=ssa/check_bce) must be covered by the obligations the enumerator produced for
+// the functions it analysed — so no bounds check (e.g. one inlined from the standard library)
+// escapes the enumeration. The compiler is used as an oracle on the enumeration only; nothing is run.
+func bceCrossCheck(r *Run) {
+	if len(r.BoundsFns) == 0 || r.P == nil {
+		return
+	}
+	pkgs := map[string]bool{}
+	type span struct {
+		file       string
+		start, end int
+		fn         string
+	}
+	var spans []span
+	for fn := range r.BoundsFns {
+		root := fn
+		for root.Parent() != nil {
+			root = root.Parent()
+		}
+		if root.Pkg == nil {
+			continue
+		}
+		pkgs[root.Pkg.Pkg.Path()] = true
+		syn := fn.Syntax()
+		if syn == nil {
+			continue
+		}
+		ps, pe := r.P.Fset.Position(syn.Pos()), r.P.Fset.Position(syn.End())
+		rel, _ := filepath.Rel(r.P.Repo, ps.Filename)
+		spans = append(spans, span{rel, ps.Line, pe.Line, fnName(fn)})
+	}
+	cache, err := os.MkdirTemp("", "p9pcheck-gocache-")
+	if err != nil {
+		r.Notes = append(r.Notes, "bce cross-check skipped: "+err.Error())
+		return
+	}
+	defer os.RemoveAll(cache)
+	args := []string{"build", "-o", os.DevNull}
+	var plist []string
+	for p := range pkgs {
+		plist = append(plist, p)
+		args = append(args, "-gcflags="+p+"=-d=ssa/check_bce/debug=1")
+	}
+	sort.Strings(plist)
+	args = append(args, plist...)
+	cmd := exec.Command("go", args...)
+	cmd.Dir = r.P.Repo
+	cmd.Env = append(os.Environ(), "GOFLAGS=-mod=mod", "GOPROXY=off", "GOSUMDB=off", "GOTOOLCHAIN=local", "GOWORK=off", "GOCACHE="+cache)
+	out, _ := cmd.CombinedOutput()
+	nSites, nCovered := 0, 0
+	var missing []string
+	for _, line := range strings.Split(string(out), "\n") {
+		if !strings.Contains(line, "Found Is") {
+			continue
+		}
+		parts := strings.SplitN(strings.TrimPrefix(line, "./"), ":", 4)
+		if len(parts) < 3 {
+			continue
+		}
+		file := parts[0]
+		var ln int
+		fmt.Sscanf(parts[1], "%d", &ln)
+		// resolve the file relative to the repo: the compiler prints paths relative to the package directory
+		cands := []string{file}
+		for _, p := range plist {
+			sub := strings.TrimPrefix(strings.TrimPrefix(p, modPath), "/")
+			if sub != "" {
+				cands = append(cands, sub+"/"+file)
+			}
+		}
+		inScope := ""
+		key := ""
+		for _, c := range cands {
+			for _, sp := range spans {
+				if sp.file == c && ln >= sp.start && ln <= sp.end {
+					inScope, key = sp.fn, fmt.Sprintf("%s:%d", c, ln)
+				}
+			}
+		}
+		if inScope == "" {
+			continue
+		}
+		nSites++
+		if r.BoundsPos[key] {
+			nCovered++
+		} else {
+			missing = append(missing, key+" ("+inScope+": "+strings.TrimSpace(parts[len(parts)-1])+")")
+		}
+	}
+	sort.Strings(missing)
+	if nSites == 0 {
+		r.Undecided("bce-crosscheck", "compiler cross-check of the bounds enumeration", token.NoPos, "the compiler reported no bounds checks in the analysed functions (build failed?): "+firstLine(string(out)))
+		return
+	}
+	if len(missing) == 0 {
+		r.Ok("bce-crosscheck", "every compiler-unproven bounds check in the analysed functions is an enumerated obligation", token.NoPos, fmt.Sprintf("%d compiler-unproven sites, %d covered", nSites, nCovered))
+	} else {
+		r.Bad("bce-crosscheck", "every compiler-unproven bounds check in the analysed functions is an enumerated obligation", token.NoPos,
+			"bounds checks the compiler could not prove are missing from the enumeration: "+strings.Join(missing, "; "))
+	}
 }
